@@ -57,6 +57,9 @@ extern "C" {
 static PANIC_INFO: Mutex<Option<String>> = Mutex::new(None);
 
 struct State {
+    /// one-shot mode: descriptors are inspected only after the END marker so that the traced window contains
+    /// nothing but the library's own system calls
+    defer: bool,
     roots: HashMap<String, Root>,
     handles: HashMap<String, OwnedFd>,
     procs: HashMap<String, ProcfsHandle>,
@@ -219,6 +222,11 @@ fn err_obs(e: Error) -> Obs {
 }
 
 fn ok_fd(st: &mut State, op: &Op, fd: OwnedFd) -> Obs {
+    if st.defer {
+        let raw = fd.as_raw_fd();
+        st.handles.insert(op.keep.clone().unwrap_or_else(|| "ret".into()), fd);
+        return Obs { ok: true, ret: Some(raw as i64), ..Default::default() };
+    }
     let info = fd_info(fd.as_raw_fd());
     if let Some(k) = &op.keep { st.handles.insert(k.clone(), fd); }
     Obs { ok: true, fd: Some(info), ..Default::default() }
@@ -252,8 +260,8 @@ fn c_ret(st: &mut State, op: &Op, ret: c_int, returns_fd: bool) -> Obs {
         o.ok = true;
         if returns_fd {
             let fd = unsafe { OwnedFd::from_raw_fd(ret) };
-            o.fd = Some(fd_info(ret));
-            if let Some(k) = &op.keep { st.handles.insert(k.clone(), fd); }
+            if st.defer { st.handles.insert(op.keep.clone().unwrap_or_else(|| "ret".into()), fd); }
+            else { o.fd = Some(fd_info(ret)); if let Some(k) = &op.keep { st.handles.insert(k.clone(), fd); } }
         }
     } else {
         o.ok = false;
@@ -410,11 +418,12 @@ fn run_op_inner(st: &mut State, op: &Op) -> Obs {
             } else {
                 match st.procs.get(&key) { Some(p) => p, None => return harness_err(format!("no procfs handle {}", key)) }
             };
-            match op.name.as_str() {
-                "proc_open" => match p.open(base, &path, flags) { Ok(f) => { let fd: OwnedFd = f.into(); let info = fd_info(fd.as_raw_fd()); if let Some(k) = &op.keep { st.handles.insert(k.clone(), fd); } Obs { ok: true, fd: Some(info), ..Default::default() } } Err(e) => err_obs(e) },
-                "proc_open_follow" => match p.open_follow(base, &path, flags) { Ok(f) => { let fd: OwnedFd = f.into(); let info = fd_info(fd.as_raw_fd()); if let Some(k) = &op.keep { st.handles.insert(k.clone(), fd); } Obs { ok: true, fd: Some(info), ..Default::default() } } Err(e) => err_obs(e) },
-                _ => match p.readlink(base, &path) { Ok(t) => Obs { ok: true, text: Some(t.to_string_lossy().into_owned()), ..Default::default() }, Err(e) => err_obs(e) },
-            }
+            let r: Result<Obs, Result<OwnedFd, Obs>> = match op.name.as_str() {
+                "proc_open" => match p.open(base, &path, flags) { Ok(f) => Err(Ok::<OwnedFd, Obs>(f.into())), Err(e) => Ok(err_obs(e)) },
+                "proc_open_follow" => match p.open_follow(base, &path, flags) { Ok(f) => Err(Ok::<OwnedFd, Obs>(f.into())), Err(e) => Ok(err_obs(e)) },
+                _ => match p.readlink(base, &path) { Ok(t) => Ok(Obs { ok: true, text: Some(t.to_string_lossy().into_owned()), ..Default::default() }), Err(e) => Ok(err_obs(e)) },
+            };
+            match r { Ok(o) => o, Err(Ok(fd)) => ok_fd(st, op, fd), Err(Err(o)) => o }
         }
         // ------------------------------------------------------------------ C API
         (true, "open_root") => { let r = unsafe { pathrs_open_root(cpath_ptr) }; c_ret(st, op, r, true) }
@@ -524,7 +533,7 @@ fn main() {
         let msg = if let Some(s) = info.payload().downcast_ref::<&str>() { s.to_string() } else if let Some(s) = info.payload().downcast_ref::<String>() { s.clone() } else { "?".into() };
         if let Ok(mut g) = PANIC_INFO.try_lock() { *g = Some(format!("{} @ {}", msg, loc)); }
     }));
-    let mut st = State { roots: HashMap::new(), handles: HashMap::new(), procs: HashMap::new() };
+    let mut st = State { defer: false, roots: HashMap::new(), handles: HashMap::new(), procs: HashMap::new() };
     match args[1].as_str() {
         "serve" => {
             let setup: Setup = serde_json::from_str(&args[2]).unwrap_or_else(|e| die(&format!("bad setup: {}", e)));
@@ -548,6 +557,7 @@ fn main() {
             let mut warm = Vec::new();
             for op in &spec.warmup { warm.push(run_op(&mut st, op)); }
             let before = fd_table();
+            st.defer = true;
             unsafe { libc::raise(libc::SIGSTOP) }; // BEGIN
             *PANIC_INFO.lock().unwrap() = None;
             let r = panic::catch_unwind(AssertUnwindSafe(|| run_op_inner(&mut st, &spec.op)));
@@ -556,6 +566,10 @@ fn main() {
                 Ok(o) => o,
                 Err(_) => Obs { ok: false, panic: Some(PANIC_INFO.lock().unwrap().clone().unwrap_or_else(|| "unknown panic".into())), ..Default::default() },
             };
+            st.defer = false;
+            if obs.ok && obs.fd.is_none() {
+                if let Some(h) = st.handles.get(spec.op.keep.as_deref().unwrap_or("ret")) { obs.fd = Some(fd_info(h.as_raw_fd())); }
+            }
             obs.fds_before = before;
             obs.fds_after = fd_table();
             let resp = Response { obs: warm.into_iter().chain(std::iter::once(obs)).collect() };
